@@ -698,6 +698,7 @@ func (fc *followerController) handleSnapshot(stream proto.OxiaLogReplication_Sen
 	// The new term must be persisted, to avoid rolling it back
 	if err = newDb.UpdateTerm(fc.term, fc.termOptions); err != nil {
 		fc.closeStreamNoMutex(errors.Wrap(err, "Failed to update term in db"))
+		return
 	}
 
 	commitOffset, err := newDb.ReadCommitOffset()
